@@ -162,11 +162,12 @@ func (m setModel) max() int32 {
 
 var widePoints = []int32{0, 1, 2, 0x7f, 0x80, 0xd7ff, 0xd800, 0xdfff, 0xe000, 0xffff, 0x10000, 0x10fffe, 0x10ffff, 0x110000}
 
-func genSetCase(t *rapid.T) setCase {
-	c := setCase{Wide: rapid.IntRange(0, 4).Draw(t, "profile") == 0}
-	n := rapid.IntRange(3, 30).Draw(t, "nops")
-	point := func(label string) int32 {
-		if c.Wide {
+// setActions returns the rapid state-machine actions: each draws the arguments of one
+// operation (all random choices are rapid draws), applies it to the real sets and to the
+// model, and fails on the first disagreement. The "" action is the invariant.
+func setActions(st *setState, fail func(t *rapid.T, what string)) map[string]func(*rapid.T) {
+	point := func(t *rapid.T, label string) int32 {
+		if st.c.Wide {
 			p := rapid.SampledFrom(widePoints).Draw(t, label)
 			d := int32(rapid.IntRange(-1, 1).Draw(t, label+"d"))
 			if p+d >= 0 && p+d <= 0x110000 {
@@ -176,33 +177,38 @@ func genSetCase(t *rapid.T) setCase {
 		}
 		return int32(rapid.IntRange(0, 16).Draw(t, label))
 	}
-	model := make([]setModel, 4)
-	for i := 0; i < n; i++ {
-		var o setOp
-		switch k := rapid.IntRange(0, 11).Draw(t, "op"); {
-		case k <= 2:
-			o = setOp{Op: "add", Dst: rapid.IntRange(0, 3).Draw(t, "dst"), Lo: point("x")}
-			model[o.Dst] = append(model[o.Dst], [2]int32{o.Lo, o.Lo})
-		case k <= 6:
-			a, b := point("lo"), point("hi")
+	slot := func(t *rapid.T, label string) int { return rapid.IntRange(0, 3).Draw(t, label) }
+	do := func(t *rapid.T, o setOp) {
+		st.c.Ops = append(st.c.Ops, o)
+		if w := st.apply(o); w != "" {
+			fail(t, w)
+		}
+	}
+	return map[string]func(*rapid.T){
+		"add": func(t *rapid.T) { do(t, setOp{Op: "add", Dst: slot(t, "dst"), Lo: point(t, "x")}) },
+		"addrange": func(t *rapid.T) {
+			a, b := point(t, "lo"), point(t, "hi")
 			if a > b {
 				a, b = b, a
 			}
-			o = setOp{Op: "addrange", Dst: rapid.IntRange(0, 3).Draw(t, "dst"), Lo: a, Hi: b}
-			model[o.Dst] = append(model[o.Dst], [2]int32{a, b})
-		case k == 7:
-			o = setOp{Op: "copy", Dst: rapid.IntRange(0, 3).Draw(t, "dst"), A: rapid.IntRange(0, 3).Draw(t, "a")}
-			model[o.Dst] = append(setModel(nil), model[o.A]...)
-		case k <= 9:
-			o = setOp{Op: "union", Dst: rapid.IntRange(0, 3).Draw(t, "dst"), A: rapid.IntRange(0, 3).Draw(t, "a"), B: rapid.IntRange(0, 3).Draw(t, "b")}
-			model[o.Dst] = append(append(setModel(nil), model[o.A]...), model[o.B]...)
-		case k == 10:
+			do(t, setOp{Op: "addrange", Dst: slot(t, "dst"), Lo: a, Hi: b})
+		},
+		"addrange2": func(t *rapid.T) { // a second entry doubles the weight of insertions
+			a, b := point(t, "lo"), point(t, "hi")
+			if a > b {
+				a, b = b, a
+			}
+			do(t, setOp{Op: "addrange", Dst: slot(t, "dst"), Lo: a, Hi: b})
+		},
+		"copy":  func(t *rapid.T) { do(t, setOp{Op: "copy", Dst: slot(t, "dst"), A: slot(t, "a")}) },
+		"union": func(t *rapid.T) { do(t, setOp{Op: "union", Dst: slot(t, "dst"), A: slot(t, "a"), B: slot(t, "b")}) },
+		"complement": func(t *rapid.T) {
 			// complement within [0,limit]; precondition taken from the only caller:
 			// every element is <= limit+1
-			a := rapid.IntRange(0, 3).Draw(t, "a")
-			mx := model[a].max()
+			a := slot(t, "a")
+			mx := st.model[a].max()
 			var cands []int32
-			if c.Wide {
+			if st.c.Wide {
 				for _, l := range []int32{0, 1, 0xffff, 0x10fffe, 0x10ffff, 0x110000} {
 					if int64(mx) <= int64(l)+1 {
 						cands = append(cands, l)
@@ -222,15 +228,15 @@ func genSetCase(t *rapid.T) setCase {
 				}
 			}
 			l := rapid.SampledFrom(cands).Draw(t, "limit")
-			o = setOp{Op: "complement", Dst: rapid.IntRange(0, 3).Draw(t, "dst"), A: a, Limit: l}
-			model[o.Dst] = model[a].complement(l)
-		default:
-			o = setOp{Op: "new", Dst: rapid.IntRange(0, 3).Draw(t, "dst")}
-			model[o.Dst] = nil
-		}
-		c.Ops = append(c.Ops, o)
+			do(t, setOp{Op: "complement", Dst: slot(t, "dst"), A: a, Limit: l})
+		},
+		"new": func(t *rapid.T) { do(t, setOp{Op: "new", Dst: slot(t, "dst")}) },
+		"": func(t *rapid.T) {
+			if w := st.invariant(); w != "" {
+				fail(t, w)
+			}
+		},
 	}
-	return c
 }
 
 // wellFormed walks the exported list links with a step cap, so that a cyclic or broken list
@@ -262,182 +268,214 @@ func wellFormed(s *set.Set) string {
 	return ""
 }
 
-type setRun struct {
-	classes map[string]bool
+type setState struct {
+	c     setCase
+	pool  []*set.Set
+	model []setModel
+	cls   map[string]bool
+	step  int
+	cur   string
 }
 
-// runSetCase executes a case against the real package and the model; it returns a
-// description of the first disagreement ("" if none).
-func runSetCase(c setCase, cls map[string]bool) (what string) {
-	pool := make([]*set.Set, 4)
-	model := make([]setModel, 4)
-	for i := range pool {
-		pool[i] = set.NewSet()
+func newSetState(wide bool) *setState {
+	st := &setState{c: setCase{Wide: wide}, pool: make([]*set.Set, 4), model: make([]setModel, 4), cls: map[string]bool{}}
+	for i := range st.pool {
+		st.pool[i] = set.NewSet()
 	}
-	step := -1
-	cur := ""
-	defer func() {
-		if r := recover(); r != nil {
-			what = fmt.Sprintf("step %d %s: panic: %v", step, cur, r)
-		}
-	}()
-	mark := func(k string) {
-		if cls != nil {
-			cls[k] = true
-		}
-	}
-	universe := func() []int32 {
-		if !c.Wide {
-			u := make([]int32, 0, 19)
-			for x := int32(0); x <= 18; x++ {
-				u = append(u, x)
-			}
-			return u
-		}
-		seen := map[int32]bool{}
-		var u []int32
-		add := func(x int64) {
-			if x >= 0 && x <= 0x110001 && !seen[int32(x)] {
-				seen[int32(x)] = true
-				u = append(u, int32(x))
-			}
-		}
-		for _, p := range widePoints {
-			for d := int64(-2); d <= 2; d++ {
-				add(int64(p) + d)
-			}
-		}
-		for _, m := range model {
-			for _, r := range m {
-				for d := int64(-1); d <= 1; d++ {
-					add(int64(r[0]) + d)
-					add(int64(r[1]) + d)
-				}
-			}
+	return st
+}
+
+func (st *setState) mark(k string) { st.cls[k] = true }
+
+func (st *setState) universe() []int32 {
+	if !st.c.Wide {
+		u := make([]int32, 0, 19)
+		for x := int32(0); x <= 18; x++ {
+			u = append(u, x)
 		}
 		return u
 	}
-	invariant := func() string {
-		for i, s := range pool {
-			if w := wellFormed(s); w != "" {
-				return fmt.Sprintf("s%d: %s", i, w)
-			}
-		}
-		u := universe()
-		for i, s := range pool {
-			m := model[i]
-			cur = fmt.Sprintf("s%d.Has", i)
-			for _, x := range u {
-				if got, want := s.Has(x), m.has(x); got != want {
-					return fmt.Sprintf("s%d.Has(%d) = %v, model %v (model set %v)", i, x, got, want, m.norm())
-				}
-			}
-			cur = fmt.Sprintf("s%d.Len", i)
-			wantLen := m.length()
-			if got := s.Len(); got != wantLen {
-				return fmt.Sprintf("s%d.Len() = %d, model %d (model set %v)", i, got, wantLen, m.norm())
-			}
-			if wantLen == 0 {
-				mark("observer_on_empty")
-			}
-			if wantLen <= 64 {
-				cur = fmt.Sprintf("s%d.String", i)
-				if got, want := s.String(), m.str(); got != want {
-					return fmt.Sprintf("s%d.String() = %q, model %q", i, got, want)
-				}
-			}
-			cur = fmt.Sprintf("s%d.Copy", i)
-			cp := s.Copy()
-			if w := wellFormed(cp); w != "" {
-				return fmt.Sprintf("s%d.Copy(): %s", i, w)
-			}
-			if !cp.Equal(s) || !s.Equal(cp) {
-				return fmt.Sprintf("s%d.Copy() is not Equal to s%d (model set %v)", i, i, m.norm())
-			}
-		}
-		for i := range pool {
-			for j := range pool {
-				cur = fmt.Sprintf("s%d.Equal(s%d)", i, j)
-				if got, want := pool[i].Equal(pool[j]), model[i].equal(model[j]); got != want {
-					return fmt.Sprintf("s%d.Equal(s%d) = %v, model %v (s%d=%v s%d=%v)", i, j, got, want, i, model[i].norm(), j, model[j].norm())
-				}
-				cur = fmt.Sprintf("s%d.Intersects(s%d)", i, j)
-				if got, want := pool[i].Intersects(pool[j]), model[i].intersects(model[j]); got != want {
-					return fmt.Sprintf("s%d.Intersects(s%d) = %v, model %v (s%d=%v s%d=%v)", i, j, got, want, i, model[i].norm(), j, model[j].norm())
-				}
-			}
-		}
-		return ""
-	}
-	classify := func(m setModel, lo, hi int32, limitish bool) {
-		nm := m.norm()
-		touch, nested, adjacent := 0, false, false
-		for _, r := range nm {
-			if int64(lo) <= int64(r[1])+1 && int64(r[0]) <= int64(hi)+1 {
-				touch++
-			}
-			if r[0] <= lo && hi <= r[1] {
-				nested = true
-			}
-			if int64(lo) == int64(r[1])+1 || int64(hi)+1 == int64(r[0]) {
-				adjacent = true
-			}
-		}
-		if touch >= 2 {
-			mark("insert_bridging")
-		}
-		if nested {
-			mark("insert_nested")
-		}
-		if adjacent {
-			mark("insert_adjacent")
-		}
-		if lo == 0 {
-			mark("touches_zero")
-		}
-		if limitish {
-			mark("touches_limit")
+	seen := map[int32]bool{}
+	var u []int32
+	add := func(x int64) {
+		if x >= 0 && x <= 0x110001 && !seen[int32(x)] {
+			seen[int32(x)] = true
+			u = append(u, int32(x))
 		}
 	}
-	for i, o := range c.Ops {
-		step, cur = i, o.String()
-		for _, s := range pool {
-			if w := wellFormed(s); w != "" {
-				return fmt.Sprintf("before step %d %s: %s", i, cur, w)
+	for _, p := range widePoints {
+		for d := int64(-2); d <= 2; d++ {
+			add(int64(p) + d)
+		}
+	}
+	for _, m := range st.model {
+		for _, r := range m {
+			for d := int64(-1); d <= 1; d++ {
+				add(int64(r[0]) + d)
+				add(int64(r[1]) + d)
 			}
 		}
-		switch o.Op {
-		case "new":
-			pool[o.Dst], model[o.Dst] = set.NewSet(), nil
-		case "add":
-			classify(model[o.Dst], o.Lo, o.Lo, o.Lo >= 15 && !c.Wide || o.Lo >= 0x10ffff)
-			pool[o.Dst].Add(o.Lo)
-			model[o.Dst] = append(append(setModel(nil), model[o.Dst]...), [2]int32{o.Lo, o.Lo})
-		case "addrange":
-			classify(model[o.Dst], o.Lo, o.Hi, o.Hi >= 15 && !c.Wide || o.Hi >= 0x10ffff)
-			pool[o.Dst].AddRange(o.Lo, o.Hi)
-			model[o.Dst] = append(append(setModel(nil), model[o.Dst]...), [2]int32{o.Lo, o.Hi})
-		case "copy":
-			r := pool[o.A].Copy()
-			pool[o.Dst], model[o.Dst] = r, append(setModel(nil), model[o.A]...)
-			mark("copy")
-		case "union":
-			r := pool[o.A].Union(pool[o.B])
-			// the operands are observed again by the invariant below (model unchanged)
-			nm := append(append(setModel(nil), model[o.A]...), model[o.B]...)
-			pool[o.Dst], model[o.Dst] = r, nm
-			mark("union")
-		case "complement":
-			nm := model[o.A].complement(o.Limit)
-			if model[o.A].has(o.Limit) || model[o.A].has(0) {
-				mark("complement_at_boundary")
-			}
-			r := pool[o.A].Complement(o.Limit)
-			pool[o.Dst], model[o.Dst] = r, nm
-			mark("complement")
+	}
+	return u
+}
+
+// invariant compares every observer of every slot and every pair with the model.
+func (st *setState) invariant() (what string) {
+	defer func() {
+		if r := recover(); r != nil {
+			what = fmt.Sprintf("after %d steps, %s: panic: %v", st.step, st.cur, r)
 		}
-		if w := invariant(); w != "" {
-			return fmt.Sprintf("after step %d %s: %s", i, o.String(), w)
+	}()
+	pool, model := st.pool, st.model
+	for i, s := range pool {
+		if w := wellFormed(s); w != "" {
+			return fmt.Sprintf("s%d: %s", i, w)
+		}
+	}
+	u := st.universe()
+	for i, s := range pool {
+		m := model[i]
+		st.cur = fmt.Sprintf("s%d.Has", i)
+		for _, x := range u {
+			if got, want := s.Has(x), m.has(x); got != want {
+				return fmt.Sprintf("s%d.Has(%d) = %v, model %v (model set %v)", i, x, got, want, m.norm())
+			}
+		}
+		st.cur = fmt.Sprintf("s%d.Len", i)
+		wantLen := m.length()
+		if got := s.Len(); got != wantLen {
+			return fmt.Sprintf("s%d.Len() = %d, model %d (model set %v)", i, got, wantLen, m.norm())
+		}
+		if wantLen <= 64 {
+			st.cur = fmt.Sprintf("s%d.String", i)
+			if got, want := s.String(), m.str(); got != want {
+				return fmt.Sprintf("s%d.String() = %q, model %q", i, got, want)
+			}
+		}
+		st.cur = fmt.Sprintf("s%d.Copy", i)
+		cp := s.Copy()
+		if w := wellFormed(cp); w != "" {
+			return fmt.Sprintf("s%d.Copy(): %s", i, w)
+		}
+		if !cp.Equal(s) || !s.Equal(cp) {
+			return fmt.Sprintf("s%d.Copy() is not Equal to s%d (model set %v)", i, i, m.norm())
+		}
+	}
+	for i := range pool {
+		for j := range pool {
+			st.cur = fmt.Sprintf("s%d.Equal(s%d)", i, j)
+			if got, want := pool[i].Equal(pool[j]), model[i].equal(model[j]); got != want {
+				return fmt.Sprintf("s%d.Equal(s%d) = %v, model %v (s%d=%v s%d=%v)", i, j, got, want, i, model[i].norm(), j, model[j].norm())
+			}
+			st.cur = fmt.Sprintf("s%d.Intersects(s%d)", i, j)
+			if got, want := pool[i].Intersects(pool[j]), model[i].intersects(model[j]); got != want {
+				return fmt.Sprintf("s%d.Intersects(s%d) = %v, model %v (s%d=%v s%d=%v)", i, j, got, want, i, model[i].norm(), j, model[j].norm())
+			}
+		}
+	}
+	return ""
+}
+
+func (st *setState) classify(m setModel, lo, hi int32) {
+	nm := m.norm()
+	touch, nested, adjacent := 0, false, false
+	for _, r := range nm {
+		if int64(lo) <= int64(r[1])+1 && int64(r[0]) <= int64(hi)+1 {
+			touch++
+		}
+		if r[0] <= lo && hi <= r[1] {
+			nested = true
+		}
+		if int64(lo) == int64(r[1])+1 || int64(hi)+1 == int64(r[0]) {
+			adjacent = true
+		}
+	}
+	if touch >= 2 {
+		st.mark("insert_bridging")
+	}
+	if nested {
+		st.mark("insert_nested")
+	}
+	if adjacent {
+		st.mark("insert_adjacent")
+	}
+	if lo == 0 {
+		st.mark("touches_zero")
+	}
+	if (!st.c.Wide && hi >= 15) || hi >= 0x10ffff {
+		st.mark("touches_limit")
+	}
+}
+
+// apply performs one operation on the real sets and on the model.
+func (st *setState) apply(o setOp) (what string) {
+	st.step++
+	st.cur = o.String()
+	defer func() {
+		if r := recover(); r != nil {
+			what = fmt.Sprintf("step %d %s: panic: %v", st.step, st.cur, r)
+		}
+	}()
+	pool, model := st.pool, st.model
+	for _, s := range pool {
+		if w := wellFormed(s); w != "" {
+			return fmt.Sprintf("before step %d %s: %s", st.step, st.cur, w)
+		}
+	}
+	switch o.Op {
+	case "new":
+		pool[o.Dst], model[o.Dst] = set.NewSet(), nil
+	case "add":
+		st.classify(model[o.Dst], o.Lo, o.Lo)
+		pool[o.Dst].Add(o.Lo)
+		model[o.Dst] = append(append(setModel(nil), model[o.Dst]...), [2]int32{o.Lo, o.Lo})
+	case "addrange":
+		st.classify(model[o.Dst], o.Lo, o.Hi)
+		pool[o.Dst].AddRange(o.Lo, o.Hi)
+		model[o.Dst] = append(append(setModel(nil), model[o.Dst]...), [2]int32{o.Lo, o.Hi})
+	case "copy":
+		r := pool[o.A].Copy()
+		pool[o.Dst], model[o.Dst] = r, append(setModel(nil), model[o.A]...)
+		st.mark("copy")
+	case "union":
+		r := pool[o.A].Union(pool[o.B])
+		// the operands are observed again by the invariant (their model is unchanged)
+		nm := append(append(setModel(nil), model[o.A]...), model[o.B]...)
+		pool[o.Dst], model[o.Dst] = r, nm
+		st.mark("union")
+	case "complement":
+		nm := model[o.A].complement(o.Limit)
+		if model[o.A].has(o.Limit) || model[o.A].has(0) {
+			st.mark("complement_at_boundary")
+		}
+		if len(nm) == 0 {
+			st.mark("complement_result_empty")
+		}
+		r := pool[o.A].Complement(o.Limit)
+		pool[o.Dst], model[o.Dst] = r, nm
+		st.mark("complement")
+	}
+	return ""
+}
+
+// runSetCase replays a materialised sequence (invariant after every step).
+func runSetCase(c setCase, cls map[string]bool) string {
+	st := newSetState(c.Wide)
+	if w := st.invariant(); w != "" {
+		return "initially: " + w
+	}
+	for _, o := range c.Ops {
+		st.c.Ops = append(st.c.Ops, o)
+		if w := st.apply(o); w != "" {
+			return w
+		}
+		if w := st.invariant(); w != "" {
+			return fmt.Sprintf("after step %d %s: %s", st.step, o.String(), w)
+		}
+	}
+	for k := range st.cls {
+		if cls != nil {
+			cls[k] = true
 		}
 	}
 	return ""
@@ -455,37 +493,40 @@ func setCaseString(c setCase) string {
 	return p + strings.Join(parts, "; ")
 }
 
-var c16NT = []string{"insert_bridging", "insert_nested", "insert_adjacent", "touches_zero", "touches_limit", "observer_on_empty"}
+var c16NT = []string{"insert_bridging", "insert_nested", "insert_adjacent", "touches_zero", "touches_limit", "complement_result_empty"}
 
 func c16Shard(c *drv.Ctx, shard, checks int) (*drv.Stats, *drv.Violation, error) {
 	st := drv.NewStats()
 	var lastCase *setCase
 	var lastWhat string
 	prop := func(t *rapid.T) {
-		cs := genSetCase(t)
-		cls := map[string]bool{}
-		what := runSetCase(cs, cls)
-		st.Eval()
-		nt := false
-		for k := range cls {
-			st.Class(k)
-		}
-		for _, k := range c16NT {
-			if cls[k] {
-				nt = true
-			}
-		}
-		str := setCaseString(cs)
-		if nt && st.Nontrivial(drv.Hash(str)) {
-			if len(cs.Ops) <= 8 {
-				st.Sample(str)
-			}
-		}
-		if what != "" {
-			cp := cs
+		sm := newSetState(rapid.IntRange(0, 4).Draw(t, "profile") == 0)
+		failed := false
+		fail := func(t *rapid.T, what string) {
+			cp := sm.c
+			cp.Ops = append([]setOp(nil), sm.c.Ops...)
 			lastCase, lastWhat = &cp, what
+			failed = true
 			t.Fatalf("%s", what)
 		}
+		defer func() {
+			// runs also when rapid unwinds a failing case; count every executed sequence
+			st.Eval()
+			for k := range sm.cls {
+				st.Class(k)
+			}
+			nt := false
+			for _, k := range c16NT {
+				if sm.cls[k] {
+					nt = true
+				}
+			}
+			str := setCaseString(sm.c)
+			if nt && !failed && st.Nontrivial(drv.Hash(str)) && len(sm.c.Ops) <= 8 {
+				st.Sample(str)
+			}
+		}()
+		t.Repeat(setActions(sm, fail))
 	}
 	res := drv.RunRapid("C16", checks, drv.ShardSeed(c.Seed, "c16", shard), time.Duration(c.Pick(20, 60))*time.Second, prop)
 	if res.Failed {
@@ -508,7 +549,7 @@ func init() {
 		return runSetCase(cs, nil), nil
 	})
 	drv.Register("C16",
-		"rapid-generated operation sequences (3-30 steps of Add/AddRange/Copy/Union/Complement/New over a pool of 4 sets; narrow universe [0,16] in 4 of 5 cases, otherwise code-point boundaries up to 0x110000), mirrored in a range-list model; after every step Has over the whole universe, Len, String, Copy, and Equal/Intersects for all 16 ordered pairs are compared. A sequence is non-trivial when it contains an insertion adjacent to, nested in or bridging existing ranges, touches 0 or the limit, or applies observers to an empty set; distinct = distinct operation sequence.",
+		"rapid-generated operation sequences (3-30 steps of Add/AddRange/Copy/Union/Complement/New over a pool of 4 sets; narrow universe [0,16] in 4 of 5 cases, otherwise code-point boundaries up to 0x110000), mirrored in a range-list model; after every step Has over the whole universe, Len, String, Copy, and Equal/Intersects for all 16 ordered pairs are compared. A sequence is non-trivial when it contains an insertion adjacent to, nested in or bridging existing ranges, touches 0 or the limit, or complements a set to the empty set (observers on a computed empty set); distinct = distinct operation sequence.",
 		[]string{
 			"AddRange is only called with begin <= end and Complement(limit) only on sets whose elements are <= limit+1 (the only orders peg's own callers use); elements are code points in [0, 0x110000]",
 			"the model (unnormalised range list, membership by containment) is correct",
